@@ -122,11 +122,11 @@ def check_lattice(recs, P, En, bt, tname, except_for):
         return f"name {new.name!r} vs {seg.name!r}"
     if tname in ("merged", "as_drifts", "no_markers"):
         l0, l1 = float(seg.length), float(new.length)
-        if abs(l0 - l1) > 1e-9 * max(1.0, abs(l0)):
+        if not abs(l0 - l1) <= 1e-9 * max(1.0, abs(l0)):
             return f"length {l1} vs {l0}"
     if tname == "no_zero_length":
         l0, l1 = float(seg.length), float(new.length)
-        if abs(l0 - l1) > 1e-9 * max(1.0, abs(l0)):
+        if not abs(l0 - l1) <= 1e-9 * max(1.0, abs(l0)):
             return f"length {l1} vs {l0}"
     # excepted elements are kept unchanged (same object) and addressable by name
     kept_orig = [el for el in seg2.elements if el.name in except_for]
